@@ -38,17 +38,28 @@ def by_position(case):
     return zlib.crc32(repr((case.get('fn'), sorted(case.get('kw', {}).items(), key=repr))).encode('utf-8', 'replace')) % 3 == 0
 
 
+def lazily(case):
+    """About every fifth multi-part content is handed over as a one-shot iterator instead of a list."""
+    import zlib
+    c = case.get('content')
+    return isinstance(c, list) and case.get('fn', 'make') != 'make_sequence' and \
+        zlib.crc32(repr(core.enc(c)).encode('utf-8', 'replace')) % 5 == 0
+
+
 def call(case, positional=False):
     """Executes one encode-type case against the real public function; with `positional` the options are passed by
     position in the documented order (what arrives at the encoder is compared by check_forwarding)."""
     import segno
     fn = getattr(segno, case.get('fn', 'make'))
+    content = case['content']
+    if lazily(case):
+        content = (part for part in case['content'])      # "tuple, list or any iterable" (encoder.prepare_data)
     try:
         if positional:
             args = positional_args(case.get('fn', 'make'), case.get('kw', {}))
             if args is not None:
-                return fn(case['content'], *args), None
-        return fn(case['content'], **case.get('kw', {})), None
+                return fn(content, *args), None
+        return fn(content, **case.get('kw', {})), None
     except Exception as ex:  # noqa: BLE001  the class is what the monitors look at
         return None, ex
 
@@ -69,6 +80,8 @@ def run_encode_cases(cases, rec, props, after=None, reach=True):
         positional = by_position(case)
         if positional:
             rec.count('calls_with_positional_options')
+        if lazily(case):
+            rec.count('multi_part_contents_as_one_shot_iterator')
         q, ex = call(case, positional)
         if ex is None:
             rec.count('accepted')
@@ -222,7 +235,7 @@ def check_forwarding(case, rec, prop):
     want.update(kw)
     bad = {k: (seen.get(k), v) for k, v in want.items() if k in seen and not (seen.get(k) is v or seen.get(k) == v)}
     rec.count('public_arguments_compared')
-    if bad or seen.get('content') is not case['content'] and seen.get('content') != case['content']:
+    if bad or (not lazily(case) and seen.get('content') is not case['content'] and seen.get('content') != case['content']):
         rec.deviation(prop, 'public-argument-not-forwarded', {'function': fn, 'encoder_got_vs_user_passed': bad})
 
 
